@@ -576,3 +576,115 @@ func (c *Ctx) ruleForwardAll(rule string) {
 		c.R.Unresolved(rule, "a loop around a select that receives from a receive-only channel parameter (the signal forwarder)")
 	}
 }
+
+// R-DEFERUNLOCK (C07 "never deadlocks ... answers every accepted work-start"; C11): the SDK calls code it does not own -
+// a step's initializer, handlers, signal handlers: values of function type kept in fields - and catches their panics
+// further up (the server's recover around a step, a signal). A mutex that is held while such code runs must therefore be
+// released by a deferred unlock: an explicit Unlock behind the call is skipped by a panic, the recover lets the
+// process live on, and the next caller of Lock waits for ever. Obligation, per Lock / RLock of a sync mutex whose
+// critical section (the instructions reachable from the Lock without passing an Unlock of the same mutex) contains a
+// call through a function value loaded from a field: the unlock is deferred.
+func (c *Ctx) ruleDeferUnlock(rule string, fns map[*ssa.Function]bool) {
+	n := 0
+	for _, fn := range c.M.SortedFuncs(fns) {
+		cnt := 0
+		for _, b := range fn.Blocks {
+			for i, in := range b.Instrs {
+				call, ok := in.(*ssa.Call)
+				if !ok {
+					continue
+				}
+				name := core.StaticCalleeName(&call.Call)
+				var unlock string
+				switch name {
+				case "(*sync.Mutex).Lock", "(*sync.RWMutex).Lock":
+					unlock = strings.Replace(name, ").Lock", ").Unlock", 1)
+				case "(*sync.RWMutex).RLock":
+					unlock = "(*sync.RWMutex).RUnlock"
+				default:
+					continue
+				}
+				mutex := c.M.ValPath(call.Call.Args[0])
+				// deferred unlock of the same mutex in this function?
+				deferred := false
+				for _, db := range fn.Blocks {
+					for _, din := range db.Instrs {
+						if d, ok := din.(*ssa.Defer); ok && core.StaticCalleeName(&d.Call) == unlock && len(d.Call.Args) > 0 && c.M.ValPath(d.Call.Args[0]) == mutex {
+							deferred = true
+						}
+					}
+				}
+				// foreign calls inside the critical section
+				var foreign ssa.Instruction
+				seen := map[*ssa.BasicBlock]bool{}
+				var walk func(wb *ssa.BasicBlock, from int)
+				walk = func(wb *ssa.BasicBlock, from int) {
+					for j := from; j < len(wb.Instrs); j++ {
+						switch x := wb.Instrs[j].(type) {
+						case *ssa.Call:
+							if core.StaticCalleeName(&x.Call) == unlock && len(x.Call.Args) > 0 && c.M.ValPath(x.Call.Args[0]) == mutex {
+								return
+							}
+							if !x.Call.IsInvoke() && x.Call.StaticCallee() == nil {
+								if _, isBuiltin := x.Call.Value.(*ssa.Builtin); !isBuiltin && fromFuncField(x.Call.Value) && foreign == nil {
+									foreign = x
+								}
+							}
+						}
+					}
+					for _, s := range wb.Succs {
+						if !seen[s] {
+							seen[s] = true
+							walk(s, 0)
+						}
+					}
+				}
+				walk(b, i+1)
+				if foreign == nil {
+					continue
+				}
+				n++
+				cnt++
+				k := key(rule, c.M.Key(fn), sprintf("%s #%d: the mutex held while a function kept in a field runs is released by a deferred unlock", strings.TrimPrefix(name, "(*sync."), cnt))
+				if deferred {
+					c.R.Ok(rule, k, c.M.InstrPos(call), "critical section that runs code the SDK does not own", "the unlock is deferred: a panic of the called code releases the mutex on its way to the recover")
+				} else {
+					c.R.Bad(rule, k, c.M.InstrPos(foreign), "a mutex is held across a call of code the SDK does not own, and released by an explicit unlock only",
+						"a panic of that code (caught further up: the process lives on) skips the unlock: the next Lock of "+c.stable(fn, mutex)+" waits for ever - the next run of the step is never answered, and the server never returns")
+				}
+			}
+		}
+	}
+	if n == 0 {
+		c.R.Unresolved(rule, "a critical section that calls a function kept in a field (the step's initializer)")
+	}
+}
+
+// fromFuncField: v is loaded from a struct field of function type.
+func fromFuncField(v ssa.Value) bool {
+	for i := 0; i < 4; i++ {
+		switch x := v.(type) {
+		case *ssa.UnOp:
+			if fa, ok := x.X.(*ssa.FieldAddr); ok {
+				_, isFunc := fa.Type().Underlying().(*types.Pointer).Elem().Underlying().(*types.Signature)
+				return isFunc
+			}
+			return false
+		case *ssa.Field:
+			_, isFunc := x.Type().Underlying().(*types.Signature)
+			return isFunc
+		case *ssa.ChangeType:
+			v = x.X
+		case *ssa.Phi:
+			for _, e := range x.Edges {
+				if fromFuncField(e) {
+					return true
+				}
+			}
+			return false
+		default:
+			return false
+		}
+	}
+	return false
+}
